@@ -58,6 +58,14 @@ class WriterM(SymVal):
 
 def writer_world():
     w = World()
+    from pytableaux.tools.hybrids import qsetf, qset
+    def _oset(it, xs=()):
+        out = []
+        for x in it.iterate(xs):
+            if not any(x is y for y in out): out.append(x)
+        return tuple(out)
+    w.contract(qsetf, _oset, name='qsetf(xs): the distinct items of xs in first-occurrence order (C18)')
+    w.contract(qset, _oset, name='qset(xs): the distinct items of xs in first-occurrence order (C18)')
     def join(it, sep, xs):
         out = []
         items = it.iterate(xs)
@@ -138,6 +146,65 @@ def writer_obligations(ctx):
     except Outside as e_:
         ctx.add_result(Result('C12.write._write_coordsitem', 'unknown', detail=f'outside subset: {e_}'))
 
+def argstr_obligations(ctx):
+    """Argument.argstr / from_argstr interpreted from source: the canonical string lists EVERY member of the argument (conclusion
+    first, premises in order, repetitions kept) joined by ':', and from_argstr hands the first piece as conclusion and all the
+    others, in order, as premises to the parser"""
+    from pytableaux.lang import Argument
+    from pytableaux.lang import collect
+    world = writer_world()
+    fa = Argument.__dict__['argstr']; fia = source.of_function(fa); where = ctx.under_contract(fia)
+    class Sent(SymVal):
+        def __init__(s, n): s.n = n
+        def __repr__(s): return s.n
+    class ArgTok(SymVal):
+        def __init__(s, members): s.members = members
+        def sym_iter(s, it): return list(s.members)
+        def sym_len(s, it): return len(s.members)
+        def sym_getitem(s, it, k): return s.members[k]
+        def sym_getattr(s, it, n):
+            if n == 'conclusion': return s.members[0]
+            if n == 'premises': return tuple(s.members[1:])
+            raise Outside(f'Argument.{n}')
+    LW = Contract(lambda it, x: StrE([('W', x)]), 'Argument._argstr_lw (the Polish ascii LexWriter, C12.write.*)')
+    class ArgCls(SymVal):
+        def sym_getattr(s, it, n):
+            if n == '_argstr_lw': return LW
+            if n == '_argstr_pclass': return Contract(lambda it, **kw: ParserTok(), 'Argument._argstr_pclass(auto_preds=True)')
+            raise Outside(f'Argument.{n}')
+    class ParserTok(SymVal):
+        def sym_getattr(s, it, n):
+            if n == 'argument': return Contract(lambda it, conc, prems, title=None: ('argument', conc, list(it.iterate(prems)), title), 'Parser.argument(conclusion, premises)')
+            raise Outside(f'Parser.{n}')
+    a, b, c = Sent('a'), Sent('b'), Sent('c')
+    bad = None; und = None
+    for members in ([c], [c, a], [c, a, b], [c, a, b, a], [c, c, a], [c, a, a, a]):
+        try:
+            prs = explore(lambda path: Interp(path, world).call_source(fia, fa, ArgCls(), [ArgTok(members)], {}))
+        except Outside as e:
+            und = f'outside subset: {e}'; break
+        want = []
+        for i, m in enumerate(members):
+            if i: want.append(':')
+            want.append(('W', m))
+        if len(prs) != 1 or prs[0].kind != 'return' or flat(prs[0].value) != want:
+            bad = dict(members=[m.n for m in members], got=str(flat(prs[0].value)) if prs and prs[0].kind == 'return' else str(prs[0].value) if prs else None); break
+    if und: ctx.add_result(Result('C12.Argument.argstr', 'unknown', detail=und, where=where))
+    else: ctx.add(enum_ob('C12.Argument.argstr', bad is None, where=where, cex=bad, clause="argstr() = ':'.join(W(s) for s in (conclusion, *premises)), every member, in order, repetitions kept"))
+    ff = Argument.__dict__['from_argstr']; ff = ff.__func__ if isinstance(ff, staticmethod) else ff
+    fif = source.of_function(ff); where2 = ctx.under_contract(fif)
+    bad2 = None; und2 = None
+    for text in ('c', 'c:a', 'c:a:b:a', 'c:c:a', ':a', 'c::a'):
+        try:
+            prs = explore(lambda path: Interp(path, World()).call_source(fif, ff, ArgCls(), [text], {}))
+        except Outside as e:
+            und2 = f'outside subset: {e}'; break
+        pieces = text.split(':')
+        if len(prs) != 1 or prs[0].kind != 'return' or prs[0].value != ('argument', pieces[0], pieces[1:], None):
+            bad2 = dict(argstr=text, got=str(prs[0].value)[:120] if prs else None); break
+    if und2: ctx.add_result(Result('C12.Argument.from_argstr', 'unknown', detail=und2, where=where2))
+    else: ctx.add(enum_ob('C12.Argument.from_argstr', bad2 is None, where=where2, cex=bad2, clause='from_argstr(t) parses the first ":"-piece as the conclusion and every other piece, in order, as a premise'))
+
 def table_obligations(ctx):
     "ground facts about the live Polish/ascii tables that make the prefix code uniquely decodable"
     from pytableaux.lang import ParseTable, Notation, Operator, Quantifier, Predicate, Constant, Variable, Atomic, Marking
@@ -197,6 +264,10 @@ def _rt_chunk(job):
     for _ in range(count // 4):
         store = {}
         sents = [BP.ast_to_sentence(BP.random_ast(rnd, 'polish', rnd.randint(0, 3), (), store)) for _ in range(rnd.randint(1, 4))]
+        shape = _ % 4
+        if shape == 1 and len(sents) > 1: sents = sents + [sents[1]]              # a repeated premise
+        elif shape == 2: sents = sents + [sents[0]]                               # the conclusion among the premises
+        elif shape == 3 and len(sents) > 1: sents = [sents[0], sents[1], sents[1]] + sents[2:]   # adjacent repetition
         a = Argument(sents[0], sents[1:])
         n += 1
         try:
@@ -279,9 +350,24 @@ def run(ctx):
                        'shown to produce the prefix concatenation of the reference rendering; the live Polish/ascii string and parse tables are mutually inverse single characters disjoint from digits, blank and colon.  '
                        'Bounded: write/parse round trips of random sentences in both notations with blanks and dropped parentheses, argstr round trip, pairwise rendering injectivity in all 12 tables and the StandardLexWriter option variants.')
     writer_obligations(ctx)
+    argstr_obligations(ctx)
     table_obligations(ctx)
     bounded_roundtrip(ctx)
+    ctx.replayers['C12.Argument.'] = replay_argstr
     ctx.replayers['C12.'] = lambda r: dict(reproduced=None, detail='see counterexample / meta')
+
+def replay_argstr(r):
+    "arguments with repeated premises / the conclusion among the premises through argstr() and back"
+    from pytableaux.lang import Argument, Atomic, Operator
+    a, b = Atomic(0, 0), Atomic(1, 0)
+    out = []
+    for concl, prems in ((b, (a, Operator.Conditional(a, b), a)), (a, (a,)), (b, (a, a)), (b, ())):
+        arg = Argument(concl, prems)
+        t = arg.argstr()
+        try: back = Argument.from_argstr(t); back2 = Argument(t)
+        except Exception as e: out.append(f'{t!r}: {type(e).__name__}'); continue
+        if back != arg or back2 != arg or len(back) != len(arg): out.append(f'argument with {len(arg)} members -> argstr {t!r} -> argument with {len(back)} members')
+    return dict(reproduced=bool(out), detail='; '.join(out) or 'round trips')
 
 def replay(payload):
     if payload.get('kind') == 'bounded':
